@@ -22,7 +22,7 @@ OUT = os.path.join(os.path.dirname(os.path.abspath(__file__)), "..", "harness")
 INTS = ("int", "int16", "int32", "int64")
 FLOATS = ("float32", "float64")
 NULLS = ("nullint", "nullbool", "nullfloat", "nullstring")
-CUSTOM = {"customS": "verifCustomS", "customI": "verifCustomI", "customL": "verifCustomL"}
+CUSTOM = {"customS": "verifCustomS", "customI": "verifCustomI", "customL": "verifCustomL", "customT": "verifCustomT"}
 INT_RANGE = {"int16": (-32768, 32767), "int32": (-2147483648, 2147483647)}
 
 
@@ -241,6 +241,8 @@ def natural(t, omit=False):
         s = Sd("fixed", size=9, name=k)
     elif k == "customL":
         s = Sd("bytes")
+    elif k == "customT":
+        s = Sd("string")
     elif k == "nullint":
         s = U(Sd("long"))
     elif k == "nullbool":
@@ -331,6 +333,8 @@ class Gen:
             body.append("*p = verifCustomI(verifNondetI64(tag))")
         elif k == "customL":
             body.append("*p = verifCustomL(verifBytes(tag, verifChoice(tag+\".len\", verifMaxStr()+1)))")
+        elif k == "customT":
+            body.append("*p = verifCustomT(verifString(tag, verifChoice(tag+\".len\", verifMaxStr()+1)))")
         elif k == "nullint":
             body.append("p.Valid = verifNondetBool(tag + \".valid\")\n\tp.Int64 = %s(tag)" % ("verifNondetI64" if wide else "verifNarrow"))
         elif k == "nullbool":
@@ -399,7 +403,7 @@ class Gen:
                 b.append("return refFloat(*(*uint32)(unsafe.Pointer(p)))")
             else:
                 b.append("f := float32(*p)\n\treturn refFloat(*(*uint32)(unsafe.Pointer(&f)))")
-        elif sd.kind == "string":
+        elif sd.kind == "string" and k != "customT":
             b.append("return refStr([]byte(*p))")
         elif sd.kind == "bytes" and k != "customL":
             b.append("return refStr(*p)")
@@ -409,6 +413,8 @@ class Gen:
             b.append("return refStr(verifMarkBytesI(verifMark, p))")
         elif sd.kind == "bytes" and k == "customL":
             b.append("return refStr(verifMarkBytesL(verifMark, p))")
+        elif sd.kind == "string" and k == "customT":
+            b.append("return refStr(verifMarkBytesT(verifMark, p))")
         elif sd.kind == "fixed":
             b.append("return refStr(p[:])")
         elif sd.kind == "array":
@@ -497,6 +503,8 @@ class Gen:
             b.append("return *in == *out")
         elif wk == "customL" and tk == "customL":
             b.append("return refBytesEq([]byte(*in), []byte(*out))")
+        elif wk == "customT" and tk == "customT":
+            b.append("return verifStrEq(string(*in), string(*out))")
         elif wk == "slice" and tk == "slice":
             er = self.rt(wt.elem, tt.elem)
             b.append("if len(*in) != len(*out) {\n\t\treturn false\n\t}\n\tacc := true\n\tfor i := range *in {\n\t\tacc = verifAnd(acc, %s(&(*in)[i], &(*out)[i]))\n\t}\n\treturn acc" % er)
@@ -911,7 +919,7 @@ def catalogue_c20(g):
     twinS = Ty("struct", name="verifTwinS", fields=[Field("A", B("int32"), guard=False), Field("B", B("int32"), guard=False)])
     twinI = Ty("int64", gotext="verifTwinI")
     out = []
-    for k, twin in (("customS", twinS), ("customI", twinI), ("customL", B("bytes"))):
+    for k, twin in (("customS", twinS), ("customI", twinI), ("customL", B("bytes")), ("customT", B("string"))):
         K = k[-1]
         out.append(g.struct("verifC20_%s_field" % K, [Field("A", B(k)), Field("T", twin), Z()]))
         out.append(g.struct("verifC20_%s_ptr" % K, [Field("A", P(B(k))), Field("T", P(twin)), Z()]))
@@ -1019,6 +1027,7 @@ C05_SCHEMAS = [
     Sd("fixed", size=0, name="f0"), Sd("fixed", size=1, name="f1"), Sd("fixed", size=4, name="f4"), Sd("fixed", size=16, name="f16"),
     Sd("record", name="inner", fields=[("X", Sd("long"))]), Sd("enum", name="e"),
     Sd("array", items=Sd("long")), Sd("map", items=Sd("long")), U(Sd("long")), Sd("union", branches=[Sd("string"), Sd("null")]),
+    Sd("union", branches=[Sd("null"), Sd("string"), Sd("long")]), Sd("union", branches=[Sd("int"), Sd("long")]), Sd("union", branches=[Sd("long")]),
 ]
 
 C05_KINDS = [
